@@ -1070,12 +1070,13 @@ impl<'a> Compiler<'a> {
 }
 
 fn super_depth(import: &str) -> (usize, Option<&str>) {
-    let mut super_pog = import.split_once("super.");
+    // only complete leading `super` segments walk up (`mysuper.f` names the module `mysuper`)
+    let mut rest = import;
     let mut super_cnt = 0;
     let mut suffix = None;
-    while let Some((_sup_pre, sup_post)) = super_pog {
+    while let Some(sup_post) = rest.strip_prefix("super.") {
         super_cnt += 1;
-        super_pog = sup_post.split_once("super.");
+        rest = sup_post;
         suffix = Some(sup_post);
     }
 
